@@ -266,8 +266,11 @@ func H_c01_two_party() {
 	a.SetLogger(quietLogger())
 	b.SetLogger(quietLogger())
 	a.IsMaster(true)
-	if symInt(0, 1) == 1 {
+	switch symInt(0, 2) {
+	case 1:
 		a.SetMOTD("Hello and welcome")
+	case 2:
+		a.SetMOTD("*** Welcome to the N0CALL mailbox", "*** MTD Stats Total connects = 2580")
 	}
 	done := make(chan exchangeResult, 1)
 	go func() {
